@@ -66,7 +66,7 @@ func TestC30(t *testing.T) {
 	for _, s := range corpus {
 		run(s, s.name)
 	}
-	n := r.N(14, 1000)
+	n := r.N(12, 600)
 	for i := 0; i < n; i++ {
 		d0 := c10.NewDriver(t, r.Rng, false)
 		o, _ := d0.RandomOp([]string{"lambda"})
